@@ -92,6 +92,7 @@ func TestC09Broadcasts(t *testing.T) {
 	ops := c09alphabet()
 	shardedPhase(t, "C09", "C09/broadcast-completeness", "E1-seq", "TestC09Broadcasts", func(sh vk.Shard, rep *vk.Report) {
 		dInstallClock()
+		wanted := replayWanted()
 		deadline := vk.Deadline(150e9, 1200e9)
 		states := vk.NewSet()
 		nontriv := vk.NewSet()
@@ -103,6 +104,19 @@ func TestC09Broadcasts(t *testing.T) {
 				d = depth - 2 // the large preload is explored two operations shallower
 			}
 			complete := SeqsShard(len(ops), d, sh, deadline, func(seq []int) {
+				if wanted != nil {
+					nm := make([]string, len(seq))
+					for i, o := range seq {
+						nm[i] = ops[o].name
+					}
+					ok := false
+					for k := 1; k <= len(nm) && !ok; k++ { // violations are recorded with the prefix that exposed them
+						ok = replayMatch(wanted, map[string]any{"preload": preload, "ops": nm[:k]}) || replayMatch(wanted, map[string]any{"preload": preload, "ops": nm[:k], "drain": "at end"})
+					}
+					if !ok {
+						return
+					}
+				}
 				seqs++
 				dResetClock()
 				a := newDNode("A", 1, 0)
